@@ -74,6 +74,11 @@ struct X
     Rng& rng;
     std::ostringstream os;
     int level{0};
+    // bookkeeping for label_paths
+    std::map<std::string, std::string>* paths{nullptr};
+    std::string parent_path;  // of the location / transition being written
+    std::string parent_key;   // ":<template>:<index>"
+    int label_count{0};
     X(const XmlKnobs& k, Rng& r): k{k}, rng{r} {}
 
     void nl()
@@ -168,6 +173,7 @@ struct X
         if (!l.present()) {
             // an absent label may also be written as an empty element (editors that keep the coordinates do that)
             if (k.empty_elems && rng.chance(0.25)) {
+                ++label_count;
                 nl();
                 if (rng.chance(0.5))
                     open("label", {{"kind", kind}}, true, true);
@@ -178,6 +184,9 @@ struct X
             }
             return;
         }
+        ++label_count;
+        if (paths)
+            (*paths)[std::string{kind} + parent_key] = parent_path + "/label[" + std::to_string(label_count) + "]";
         nl();
         open("label", {{"kind", kind}}, true, false);
         os << text(l.text) << "</label>";
@@ -248,9 +257,12 @@ std::string system_text(const Model& m)
 
 }  // namespace
 
-std::string render_xml(const Model& m, const XmlKnobs& k, Rng& rng)
+std::string render_xml(const Model& m, const XmlKnobs& k, Rng& rng, std::map<std::string, std::string>* label_paths)
 {
     X x{k, rng};
+    x.paths = label_paths;
+    const std::string root = k.project_root ? "/project" : "/nta";
+    int templ_index = 0;
     if (k.xml_decl)
         x.os << "<?xml version=\"1.0\" encoding=\"utf-8\"?>";
     if (k.doctype) {
@@ -274,6 +286,8 @@ std::string render_xml(const Model& m, const XmlKnobs& k, Rng& rng)
         x.block("declaration", g, true);
     }
     for (auto& t : m.templs) {
+        const int ti = templ_index++;
+        int loc_index = 0, edge_index = 0;
         x.nl();
         x.os << "<template>";
         x.level = 2;
@@ -286,6 +300,10 @@ std::string render_xml(const Model& m, const XmlKnobs& k, Rng& rng)
             x.nl();
             x.open("location", {{"id", l.id}}, true, false);
             x.level = 3;
+            x.parent_path = root + "/template[" + std::to_string(ti + 1) + "]/location[" + std::to_string(loc_index + 1) + "]";
+            x.parent_key = ":" + std::to_string(ti) + ":" + std::to_string(loc_index);
+            x.label_count = 0;
+            ++loc_index;
             if (!l.name.empty()) {
                 x.nl();
                 x.open("name", {}, true, false);
@@ -343,6 +361,10 @@ std::string render_xml(const Model& m, const XmlKnobs& k, Rng& rng)
                 at.emplace_back("color", "#00ff00");
             x.open("transition", at, false, false);
             x.level = 3;
+            x.parent_path = root + "/template[" + std::to_string(ti + 1) + "]/transition[" + std::to_string(edge_index + 1) + "]";
+            x.parent_key = ":" + std::to_string(ti) + ":" + std::to_string(edge_index);
+            x.label_count = 0;
+            ++edge_index;
             x.nl();
             x.open("source", {{"ref", e.srcb ? t.bps[e.src].id : t.locs[e.src].id}}, false, true);
             x.nl();
